@@ -422,25 +422,35 @@ func c01Widths(p *Prog, r *Report) {
 	ce := p.Func(Mod, "Ctx.callExpr")
 	ic := p.Func(Mod, "Ctx.integerConversion")
 	if ce != nil && ic != nil {
-		rm := p.Rels(ce)
 		n := 0
-		p.instrs(ce, func(b *ssa.BasicBlock, i int, in ssa.Instruction) {
-			c, ok := in.(*ssa.Call)
-			if !ok || calleeOf(&c.Call) != ic {
-				return
+		// wherever the conversion translation is called from (the call dispatcher or a helper of it)
+		for _, cf := range p.FuncsIn(Mod) {
+			if cf == ic {
+				continue
 			}
-			n++
-			w, _ := constInt(c.Call.Args[3])
-			rs := p.RelsAt(rm, c)
-			spelled := false
-			for _, nm := range p.resolvedBuiltinNames(rs) {
-				if nm == fmt.Sprintf("uint%d", w) {
-					spelled = true
+			rm := p.Rels(cf)
+			entry := p.entryRels(cf)
+			p.instrs(cf, func(b *ssa.BasicBlock, i int, in ssa.Instruction) {
+				c, ok := in.(*ssa.Call)
+				if !ok || calleeOf(&c.Call) != ic || len(c.Call.Args) < 4 {
+					return
 				}
-			}
-			r.Check("R01b", fmt.Sprintf("conversion spelled uint%d converts to %d bits", w, w), instrPos(in), spelled,
-				fmt.Sprintf("integerConversion(…, %d) is reached without the fact that the callee is the predeclared uint%d", w, w))
-		})
+				n++
+				w, _ := constInt(c.Call.Args[3])
+				rs := p.RelsAt(rm, c)
+				for k := range entry {
+					rs[k] = true
+				}
+				spelled := false
+				for _, nm := range p.resolvedBuiltinNames(rs) {
+					if nm == fmt.Sprintf("uint%d", w) {
+						spelled = true
+					}
+				}
+				r.Check("R01b", fmt.Sprintf("conversion spelled uint%d converts to %d bits", w, w), instrPos(in), spelled,
+					fmt.Sprintf("integerConversion(…, %d) is reached without the fact that the callee is the predeclared uint%d", w, w))
+			})
+		}
 		if n < 3 {
 			r.Fail("R01b", "conversion dispatch", ce.Pos(), fmt.Sprintf("%d integerConversion call sites (uint64, uint32, uint8 expected)", n), "")
 		}
